@@ -1,7 +1,7 @@
 #!/bin/sh
 # tools/try_seed.sh <seeded-dir> [tier]   — apply a seeded change to /repo, run the check of the property it
 # breaks, undo the change.  Prints DETECTED / MISSED.  (Seeded changes are never committed to /repo.)
-D="$1"; TIER="${2:-quick}"
+D="$(cd "$1" && pwd)"; TIER="${2:-quick}"
 PROP=$(python3 -c "import json,sys; print(json.load(open('$D/meta.json'))['property'])")
 cd /repo || exit 2
 if ! git diff --quiet; then echo "/repo has uncommitted changes"; exit 2; fi
